@@ -1,6 +1,6 @@
 SPECIFICATION Spec
 CONSTANTS
-  DTypes = {"none", "message", "call", "deploy", "deposit_add", "deposit_withdraw", "patch"}
+  DTypes = {"none", "message", "call", "deploy", "deposit_add", "deposit_withdraw", "patch", "call_nodata", "call_nomethod", "deploy_nodata", "deploy_value", "patch_nodata", "patch_badtype", "deposit_nodata", "neg_value", "neg_step"}
   TxKinds = {"v3", "v2"}
   Keys = {"k1", "k2"}
   Msgs = {"this", "other"}
